@@ -192,6 +192,9 @@ func zzC10_keepalive_isolation() {
 	symIdle()
 }
 
+// C18 view of the same run: exactly the dead connection is closed
+func zzC18_keepalive_isolation() { zzC10_keepalive_isolation() }
+
 func zzC10_keepalive_selftest() {
 	scfg := tcpServer.DefaultConfig
 	WithKeepAlive(1, 2*time.Second, func(cc *tcpClient.Conn) { _ = cc.Close() }).TCPServerApply(&scfg)
